@@ -62,7 +62,7 @@ var allTypeURLs = []string{urlCCTP, urlHyp, urlInternal, urlFee, "/cosmos.bank.v
 var allEnumNames = []string{"PROTOCOL_UNSUPPORTED", "PROTOCOL_IBC", "PROTOCOL_CCTP", "PROTOCOL_HYPERLANE", "PROTOCOL_INTERNAL", "ACTION_UNSUPPORTED", "ACTION_FEE", "ACTION_SWAP", "PROTOCOL_FOO", ""}
 
 func (w *World) c14States() (names []string, build []func(ctx sdk.Context)) {
-	names = []string{"W0", "S1(stats near 2^256, params 64)", "S2(pauses)", "S3(deposits+history, stats above MaxInt64)"}
+	names = []string{"W0", "S1(stats near 2^256, params 64)", "S2(pauses)", "S3(deposits+history, stats above MaxInt64)", "S4(fee paid to the address of a module account that does not exist yet)"}
 	build = []func(ctx sdk.Context){
 		func(ctx sdk.Context) {},
 		func(ctx sdk.Context) { w.Apply(ctx, OpEnv("seed-stats-top")); w.Apply(ctx, w.OpUpdateParams(64)) },
@@ -81,6 +81,12 @@ func (w *World) c14States() (names []string, build []func(ctx sdk.Context)) {
 			w.Apply(ctx, w.OpUpdateParams(4294967295))
 			w.Apply(ctx, OpEnv("seed-stats-int64"))
 			w.Apply(ctx, w.OpRecv("t", TransferSpec{"channel-1", denomUSDC, "777", w.Orb.String(), w.FwdHyp(1), nil}.Pkt()))
+		},
+		func(ctx sdk.Context) {
+			// a fee credited to the address the warp module account WILL have creates an ordinary account there; from then on x/auth
+			// panics — with a STRING value — whenever the Hyperlane route asks for the module account (hunt H7): a panic below the
+			// orbiter whose value is not an error (seed C14i built the acknowledgement from the panic value)
+			w.Apply(ctx, w.OpRecv("t", TransferSpec{"channel-1", denomUSDC, "5000", w.Orb.String(), w.FwdInternal(w.Bob), []FeeSpec{{To: moduleAddr("warp").String(), Bps: 100}}}.Pkt()))
 		},
 	}
 	return
@@ -232,7 +238,7 @@ func checkC14(tier string) *Report {
 		states []int
 	}
 	var inputs []input
-	all := []int{0, 1, 2, 3}
+	all := []int{0, 1, 2, 3, 4}
 	seeds := w0.payloadSeeds()
 	var seedNames []string
 	for n := range seeds {
